@@ -605,7 +605,9 @@ fn part2(res: &mut JobResult) {
     let cfg = NodeCfg { threshold: 2, tick: 1, ..Default::default() };
     for (label, prelude) in [("rich", rich_prelude()), ("empty", vec![])] {
         let tpl = build_cat_template(&scratch, &cfg, &[], label);
-        let mut w = CatWorld::new(&scratch, &tpl, Transports::TCP).expect("world");
+        let mut w = CatWorld::new(&scratch, &tpl, Transports::BOTH).expect("world");
+        // the prelude itself goes over the binary protocol
+        w.tr = Transports::TCP;
         for op in &prelude {
             let out = w.apply(op);
             if !out.ok {
@@ -621,9 +623,67 @@ fn part2(res: &mut JobResult) {
                 c.send_messages(&Identifier::numeric(1).unwrap(), &Identifier::numeric(4).unwrap(), &Partitioning::partition_id(1), &mut msgs).await.expect("send");
             });
         }
+        for transport in ["tcp", "http"] {
         res.executions += 1;
-        let c = w.node.tcp_root_client();
+        let http = transport == "http";
+        let c = if http { w.node.http_root_client() } else { w.node.tcp_root_client() };
         let shared = w.node.shared();
+        // the request side of send_messages, end to end: what was sent (every message set x every
+        // partitioning kind) must be what the server stored
+        if label == "rich" {
+            let shared2 = w.node.shared();
+            let rootsess2 = w.node.root.clone();
+            let tname = transport;
+            let sent_diffs: Vec<(String, String)> = w.node.block_on(async {
+                let mut d = Vec::new();
+                let (st, tp) = (Identifier::numeric(1).unwrap(), Identifier::numeric(4).unwrap());
+                let partitionings = [Partitioning::partition_id(1), Partitioning::balanced(), Partitioning::messages_key_str("order-1").unwrap(), Partitioning::messages_key_u128(u128::MAX)];
+                let mut next_id = if http { 900_000u128 } else { 800_000u128 };
+                for set in message_sets() {
+                    for part in &partitionings {
+                        let mut msgs: Vec<Message> = set.iter().map(|m| Message::new(None, m.payload.clone(), m.headers.clone())).collect();
+                        for m in msgs.iter_mut() {
+                            next_id += 1;
+                            m.id = next_id;
+                        }
+                        let want: Vec<(u128, Bytes, Option<HashMap<HeaderKey, HeaderValue>>)> = msgs.iter().map(|m| (m.id, m.payload.clone(), m.headers.clone())).collect();
+                        if let Err(e) = c.send_messages(&st, &tp, part, &mut msgs).await {
+                            d.push((format!("{tname}:send_messages/refused"), format!("send of {} message(s) with partitioning {part:?} was refused: {e}", want.len())));
+                            continue;
+                        }
+                        // find them
+                        let sys = shared2.read().await;
+                        let topic = sys.get_stream(&st).unwrap().get_topic(&tp).unwrap();
+                        let mut found: Vec<(u128, Bytes, Option<HashMap<HeaderKey, HeaderValue>>)> = Vec::new();
+                        let mut partitions_hit = 0;
+                        for p in 1..=topic.get_partitions_count() {
+                            let polled = sys
+                                .poll_messages(&rootsess2, &Consumer::new(Identifier::numeric(56).unwrap()), &st, &tp, Some(p), server::streaming::systems::messages::PollingArgs::new(PollingStrategy::offset(0), 100_000, false))
+                                .await
+                                .expect("direct poll");
+                            let mine: Vec<_> = polled.messages.iter().filter(|m| want.iter().any(|w| w.0 == m.id)).map(|m| (m.id, m.payload.clone(), m.headers.clone())).collect();
+                            if !mine.is_empty() {
+                                partitions_hit += 1;
+                            }
+                            found.extend(mine);
+                        }
+                        if found != want || partitions_hit != 1 {
+                            d.push((
+                                format!("{tname}:send_messages/stored"),
+                                format!("sent ids {:?} with partitioning {part:?}; the server stored ids {:?} in {partitions_hit} partition(s){}", want.iter().map(|w| w.0).collect::<Vec<_>>(), found.iter().map(|w| w.0).collect::<Vec<_>>(), if found.len() == want.len() { " with different payload or headers" } else { "" }),
+                            ));
+                        }
+                    }
+                }
+                d
+            });
+            res.evaluations += 8;
+            for (what, detail) in sent_diffs {
+                if res.violations.len() < 40 {
+                    res.violations.push(Violation { property: "C13".into(), key: format!("C13:request:{what}"), message: format!("state '{label}' over {transport}, {what}: {detail}"), replay: json!({"kind":"cod","part":2,"state":label,"field":what}) });
+                }
+            }
+        }
         let rootsess = w.node.root.clone();
         let diffs: Vec<(String, String)> = w.node.block_on(async {
             let mut d: Vec<(String, String)> = Vec::new();
@@ -631,7 +691,7 @@ fn part2(res: &mut JobResult) {
             macro_rules! cmp {
                 ($what:expr, $a:expr, $b:expr) => {
                     if $a != $b {
-                        d.push(($what.to_string(), format!("SDK decoded {:?}, the server holds {:?}", $a, $b)));
+                        d.push((format!("{}{}", if http { "http:" } else { "" }, $what), format!("SDK decoded {:?}, the server holds {:?}", $a, $b)));
                     }
                 };
             }
@@ -808,8 +868,11 @@ fn part2(res: &mut JobResult) {
                     cmp!("get_client/user_id", det.user_id, s.user_id);
                 }
             }
-            let me = c.get_me().await.expect("get_me");
-            cmp!("get_me/user_id", me.user_id, Some(1u32));
+            if !http {
+                // the HTTP transport has no notion of "this connection"
+                let me = c.get_me().await.expect("get_me");
+                cmp!("get_me/user_id", me.user_id, Some(1u32));
+            }
             // stats (the counted part)
             let st = c.get_stats().await.expect("get_stats");
             let ss = sys.get_stats().await.expect("server stats");
@@ -827,15 +890,16 @@ fn part2(res: &mut JobResult) {
                 res.violations.push(Violation {
                     property: "C13".into(),
                     key: format!("C13:response:{what}"),
-                    message: format!("state '{label}', {what}: {detail}"),
+                    message: format!("state '{label}' over {transport}, {what}: {detail}"),
                     replay: json!({"kind":"cod","part":2,"state":label,"field":what}),
                 });
             }
         }
-        if res.samples.len() < 2 {
-            res.samples.push(json!({"state": label, "compared": "get_streams/get_stream/get_topics/get_topic/get_consumer_group(s)/poll_messages/get_consumer_offset/get_users/get_user/get_personal_access_tokens/get_clients/get_client/get_me/get_stats, by id and by name"}));
+        if res.samples.len() < 4 {
+            res.samples.push(json!({"state": label, "transport": transport, "compared": "get_streams/get_stream/get_topics/get_topic/get_consumer_group(s)/poll_messages/get_consumer_offset/get_users/get_user/get_personal_access_tokens/get_clients/get_client/get_me/get_stats, by id and by name"}));
         }
         drop(c);
+        }
         w.finish();
     }
 }
